@@ -73,6 +73,7 @@ type variant struct {
 	withH2       bool
 	doubleCancel bool
 	acceptGate   bool // also park the internal HTTP/1.1 server's accept loop between taking a connection and returning it
+	byDeadline   bool // the server's context ends like a deadline (context.DeadlineExceeded), not by cancellation
 }
 
 func runOne(t *testing.T, v variant, c *mc.Chooser) (out mc.Outcome) {
@@ -96,7 +97,7 @@ func runOne(t *testing.T, v variant, c *mc.Chooser) (out mc.Outcome) {
 		gates.HookMemnet()
 		defer gates.Uninstall()
 		w := &world{holding: map[string]chan struct{}{}, entered: map[string]bool{}, released: map[string]bool{}, afterCancelPaths: map[string]bool{}}
-		st := bubble.NewStack(bubble.StackOpts{HandshakeTimeout: 10 * time.Second, NoServe: v.lateServe})
+		st := bubble.NewStack(bubble.StackOpts{HandshakeTimeout: 10 * time.Second, NoServe: v.lateServe, EndByDeadline: v.byDeadline})
 		w.st = st
 		st.Backend.Hold = w.hold
 		gates.NameKey(st.Server, "watcher")
@@ -308,7 +309,9 @@ func TestCheck(t *testing.T) {
 		bound, budget = 4, 40*time.Minute
 	}
 	deadline := time.Now().Add(budget)
-	variants := []variant{{"h1+h2", false, true, true, false}, {"late-serve", true, false, false, false}, {"h1-only", false, false, true, false}, {"h1-handoff", false, false, false, true}}
+	variants := []variant{{"h1+h2", false, true, true, false, false}, {"late-serve", true, false, false, false, false}, {"h1-only", false, false, true, false, false}, {"h1-handoff", false, false, false, true, false},
+		// library use: a context that ends by deadline (the binary's ends by a signal's cancellation)
+		{"h1-only-deadline", false, false, true, false, true}}
 	rep.Info["rule"] = "workload actors (stalled handshake, idle h1, h1 exchange in flight, h2 stream in flight + idle h2, late client, clock) with the cancel step moved to every position by deviations; deviation-bounded interleavings of steps and gates (cancel watcher, channel listener, serveConn hand-off)"
 	rep.Info["max_deviation_bound_completed"] = bound
 	rep.Assume("fake clock; time is observed at 2 s granularity because net/http's Shutdown polls with a jittered interval",
